@@ -11,8 +11,9 @@ def grid(quick):
     """-> list of (template, params, problem, (size_lo, size_hi))"""
     g = []
     # instances: sphere, shifted multimodal in 1 dimension, plateaus (integer-valued objective: exact ties), ...
-    reals = ([REAL(2), REAL(1, 1, 0.0, 4.0), REAL(2, 2, -2.0, 2.0)] if quick else
-             [REAL(2), REAL(1, 1, 0.0, 4.0), REAL(2, 2, -2.0, 2.0), REAL(5, 1, -4.0, 12.0), REAL(3, 0, 0.5, 0.75)])
+    # walled sphere (objective +inf outside a small feasible box: whole populations can be infeasible)
+    reals = ([REAL(2), REAL(1, 1, 0.0, 4.0), REAL(2, 2, -2.0, 2.0), REAL(3, 3, -8.0, 8.0)] if quick else
+             [REAL(2), REAL(1, 1, 0.0, 4.0), REAL(2, 2, -2.0, 2.0), REAL(3, 3, -8.0, 8.0), REAL(5, 1, -4.0, 12.0), REAL(3, 0, 0.5, 0.75)])
     bits = [BITS(8)] if quick else [BITS(1), BITS(8)]
     tsps = [TSP(5), TSP(5, 3)] if quick else [TSP(4), TSP(7, 1), TSP(8, 2), TSP(6, 3)]
     for pr in reals:
@@ -21,7 +22,8 @@ def grid(quick):
                 g.append(("real_ga", {"population_size": ps, "tournament_size": ts, "pm": pm, "deviation": 0.1, "pc": 0.8}, pr, (ps, ps)))
         for mu, lam in ([(3, 5), (1, 1)] if quick else [(3, 5), (1, 1), (5, 2), (2, 9)]):
             g.append(("real_mu_plus_lambda_es", {"population_size": mu, "lambda": lam, "deviation": 0.1}, pr, (mu, mu)))
-        for ps, y in ([(5, 1), (5, 2)] if quick else [(3, 1), (5, 1), (5, 2), (9, 2)]):
+        # incl. the smallest populations the selection accepts (population_size = 2y)
+        for ps, y in ([(5, 1), (5, 2), (2, 1), (4, 2)] if quick else [(2, 1), (3, 1), (5, 1), (4, 2), (5, 2), (9, 2)]):
             g.append(("real_de", {"population_size": ps, "y": y, "f": 0.5, "pc": 0.5}, pr, (ps, ps)))
         w = pr["hi"] - pr["lo"]
         for np_, c, vm in ([(3, 0.5, 0.1), (1, 0.0, 10.0)] if quick else [(1, 0.0, 10.0), (2, 0.5, 0.1), (3, 2.0, 0.001), (10, 0.5, 0.1), (10, 0.0, 10.0)]):
@@ -29,15 +31,25 @@ def grid(quick):
         # inertia schedules: decreasing (above), increasing (the example of the mapping documentation), constant
         g.append(("real_pso", {"num_particles": 3, "start_weight": 0.4, "end_weight": 0.9, "c_one": 0.5, "c_two": 0.5, "v_max": 0.1 * w}, pr, (3, 3)))
         g.append(("real_pso", {"num_particles": 2, "start_weight": 0.7, "end_weight": 0.7, "c_one": 0.0, "c_two": 0.0, "v_max": 10.0 * w}, pr, (2, 2)))
+        # compound termination criterion: an evaluation budget that never bites, OR-ed in front of the iteration bound
+        g.append(("real_pso|evals", {"num_particles": 3, "start_weight": 0.9, "end_weight": 0.4, "c_one": 0.5, "c_two": 0.5, "v_max": 0.1 * w}, pr, (3, 3)))
         # no inertia at all: particles sitting on their own and the global best come to rest (zero velocity)
         g.append(("real_pso", {"num_particles": 4, "start_weight": 0.0, "end_weight": 0.0, "c_one": 2.0, "c_two": 2.0, "v_max": 0.25 * w}, pr, (4, 4)))
         for t0 in ([1.0] if quick else [1e-9, 1.0, 1e9]):
             g.append(("real_sa", {"t_0": t0, "alpha": 0.9, "deviation": 0.1}, pr, (1, 1)))
+        if not quick:
+            # extreme schedules: frozen after the first cooling; practically no cooling
+            g.append(("real_sa", {"t_0": 1e300, "alpha": 0.0, "deviation": 0.1}, pr, (1, 1)))
+            g.append(("real_sa", {"t_0": 5.0, "alpha": 0.999, "deviation": 0.5}, pr, (1, 1)))
         for nn in ([3] if quick else [1, 3, 8]):
             g.append(("real_ls", {"n_neighbors": nn, "deviation": 0.1}, pr, (1, 1)))
             g.append(("real_ils", {"n_neighbors": nn, "deviation": 0.1, "ls_iterations": 2}, pr, (1, 1)))
         g.append(("real_rs", {}, pr, (1, 1)))
         g.append(("real_rw", {"deviation": 0.1}, pr, (1, 1)))
+        # a single weed / equal weeds with min_number_of_seeds = 0 produce an empty offspring population
+        g.append(("real_iwo", {"initial_population_size": 1, "max_population_size": 3, "min_number_of_seeds": 0,
+                               "max_number_of_seeds": 1, "initial_deviation": 0.01, "final_deviation": 0.5,
+                               "modulation_index": 2}, pr, (1, 3)))
         for ip, mp in ([(3, 6)] if quick else [(1, 1), (3, 6), (5, 20)]):
             g.append(("real_iwo", {"initial_population_size": ip, "max_population_size": mp, "min_number_of_seeds": 1,
                                    "max_number_of_seeds": 3, "initial_deviation": 0.01, "final_deviation": 0.5,
@@ -50,7 +62,7 @@ def grid(quick):
             g.append(("real_bh", {"num_particles": ps}, pr, (ps, ps)))
         # CRO: parameter points chosen so that all four elementary reactions occur (synthesis needs low kinetic
         # energies w.r.t. beta, decomposition needs alpha small w.r.t. the hit counters)
-        cro_points = [(4, 0.5, 5.0, 0.1, 3), (8, 0.2, 0.0, 1000.0, 3), (4, 0.9, 50.0, 0.1, 0)]
+        cro_points = [(4, 0.5, 5.0, 0.1, 3), (8, 0.2, 0.0, 1000.0, 3), (4, 0.9, 50.0, 0.1, 0), (1, 0.3, 5.0, 0.1, 3)]
         if not quick:
             cro_points += [(2, 0.5, 5.0, 0.1, 3), (12, 0.2, 0.0, 1000.0, 1), (8, 0.8, 1.0, 0.5, 0), (3, 0.1, 0.0, 1000.0, 3)]
         for ps, mc, ke, beta, alpha in cro_points:
@@ -74,6 +86,11 @@ def grid(quick):
                                          "decay_coefficient": 1.0}, pr, (ants + 1, ants + 1)))
                 g.append(("max_min_ant_system", {"num_ants": ants, "alpha": a, "beta": b, "default_pheromones": 0.5, "evaporation": 0.1,
                                                  "max_pheromones": 1.0, "min_pheromones": 0.1}, pr, (ants + 1, ants + 1)))
+            g.append(("ant_system", {"num_ants": ants, "alpha": 0.0, "beta": 2.0, "default_pheromones": 1.0, "evaporation": 1.0,
+                                     "decay_coefficient": 1.0}, pr, (ants + 1, ants + 1)))
+            for dflt in (5.0, 0.001):
+                g.append(("max_min_ant_system", {"num_ants": ants, "alpha": 1.0, "beta": 1.0, "default_pheromones": dflt, "evaporation": 0.0,
+                                                 "max_pheromones": 2.0, "min_pheromones": 0.1}, pr, (ants + 1, ants + 1)))
             # the default level may lie outside the bounds: the first update has to bring every trail inside
             g.append(("max_min_ant_system", {"num_ants": ants, "alpha": 1.0, "beta": 1.0, "default_pheromones": 10.0, "evaporation": 0.05,
                                              "max_pheromones": 2.0, "min_pheromones": 0.1}, pr, (ants + 1, ants + 1)))
@@ -82,10 +99,20 @@ def grid(quick):
     return g
 
 
+# templates whose components only compare objective values: run on the walled sphere (+inf objectives) as well;
+# the others do arithmetic on objective values (fitness-proportional seeds, energies), for which the
+# properties do not state what infinite values should do
+INF_OK = {"real_pso", "real_pso|evals", "real_ga", "real_es", "real_de", "real_sa", "real_ls", "real_rs", "real_rw"}
+
+
 def specs(quick, seeds, iters):
     out = []
     for (t, params, prob, (lo, hi)) in grid(quick):
+        if prob.get("f") == 3 and prob.get("kind") == "real" and t not in INF_OK:
+            continue
         for n in iters:
+            if t == "real_pso|evals" and n < 2:
+                continue    # the OR-ed evaluation budget lasts two passes: the run has n passes only for n >= 2
             for s in seeds:
                 out.append({"run": len(out), "template": t, "params": params, "n": n, "seed": s, "eval": "seq", "prob": prob,
                             "size_lo": lo, "size_hi": hi})
